@@ -4,7 +4,7 @@ import timerules as T
 
 
 def check(run):
-    for r in ('SIB.ops', 'TIME.months', 'TBL.time', 'TBL.const', 'NAT.guard', 'TBL.cr'):
+    for r in ('SIB.ops', 'TIME.months', 'TBL.time', 'TBL.const', 'NAT.guard', 'TBL.cr', 'TIME.trunc'):
         run.rule(r, T.RULES[r])
     for cfg in configs(run):
         F = run.facts(cfg)
@@ -16,6 +16,7 @@ def check(run):
         T.check_ops(run, F)
         # every operator and duration_trunc goes through as_cr and back
         T.check_cr_table(run, F)
+        T.check_trunc(run, F)
     return run.finish(
         'other',
         'The structural part of the inverse laws: subtraction of a duration is the addition '
@@ -24,9 +25,12 @@ def check(run):
         'both the month and the fixed component; month components reach a date-time only '
         'through chrono::Months; Time constructors use the named constants per component and '
         'from_cr / as_cr / parse agree on the modulus; constants have their defining values. '
-        'The group laws themselves, end-of-month clamping and duration_trunc are calendar '
-        'computations delegated to chrono and are NOT decided - this is the weakest claim of '
-        'the set and is stated as such.',
+        'Truncation by a month count takes the modulus of 12*year + a zero-based month and '
+        'moves to day 1 / midnight on every such path (TIME.trunc); the DateTime <-> chrono '
+        'conversions every operator goes through denote the same instant (TBL.cr); NaT '
+        'primitives, Timelike accessors and delegations have their confirmed tables (PIN.table). '
+        'The group laws themselves, end-of-month clamping and the month-free part of '
+        'duration_trunc are calendar computations delegated to chrono and are NOT decided.',
         ASSUME, TRUSTED + ['chrono Months / Duration arithmetic'],
         'instances = operator mirror pairs, component-wise operator bodies, Time constructors, '
         'constants')
